@@ -11,13 +11,14 @@ v2: the signed bytes are `rawDetails ‖ curve ‖ publicKey`; `rawDetails` is o
 (`signed_determines_identity_v2`, for any two byte strings, standard or handshake form). Unforgeability of
 the signature scheme is a hypothesis (`tamper_rejected_v2`), never an axiom. The twin statements are the
 scalar theorems of C04 and the blocklist theorem of C01, restated here.
-v1: the signed bytes are the re-marshalled details; `signed_determines_identity_v1_partial` assumes the
-protobuf round trip of that message (tied by the `certcodec` correspondence stream, not yet proved).
+v1: the signed bytes are the re-marshalled details; the protobuf round trip of that message is proved
+(`Lemmas/CertV1Pb.lean`), so `signed_determines_identity_v1` has no codec hypothesis either.
 -/
 import Nebula.Lemmas.CertV2
 import Nebula.Lemmas.CAPool
 import Nebula.Model.CertV1
 import Nebula.Model.P256
+import Nebula.Lemmas.CertV1RT
 
 namespace Nebula.Props.C02
 open Nebula.Net Nebula.Cert Nebula.Der Nebula.Lemmas.Der Nebula.Lemmas.CertV2 Nebula.Spec.Trust
@@ -120,18 +121,34 @@ theorem blocklisting_either_twin_rejects (K : Crypto) (p : Pool) (t : Int) (c tw
       · exact h hb
     · exact hb1 hb
 
-/-- **v1** (`_partial`): the signed bytes are `proto.Marshal(getRawDetails())`. If the protobuf decoder reads
-the details encoder's output back (`hrt`, for the two messages at hand), equal signed bytes give equal raw
-details — name, address/mask pairs, groups, validity seconds, key, CA flag, issuer bytes and curve. -/
-theorem signed_determines_identity_v1_partial (c c' : Cert) (sb : List UInt8)
-    (h : V1.signedBytes c = some sb) (h' : V1.signedBytes c' = some sb)
-    (hrt : ∀ d, V1.encodeDetails d = some sb → V1.decDetails (sb.length + 1) {} sb = some d) :
-    V1.rawDetailsOf c c.publicKey = V1.rawDetailsOf c' c'.publicKey := by
-  unfold V1.signedBytes at h h'
-  have a := hrt _ h
-  have b := hrt _ h'
-  rw [a] at b
-  exact Option.some.inj b
+open Nebula.Lemmas.CertV1RT Nebula.Lemmas.CertV1Pb in
+/-- **v1: the signed bytes determine the identity**, no codec hypothesis. The signed bytes are
+`proto.Marshal(getRawDetails())`; for any two decoded certificates (any bytes, standard or handshake form) with
+equal signed bytes, name, networks, unsafe networks, groups, CA flag, validity, issuer, curve and public key are
+equal. (`V1Sized` / `hi`: byte strings shorter than 2^64.) -/
+theorem signed_determines_identity_v1 (b b' pk pk' : List UInt8) (c c' : Cert)
+    (h : V1.unmarshal b pk = .ok c) (h' : V1.unmarshal b' pk' = .ok c')
+    (hs : V1Sized c) (hs' : V1Sized c')
+    (hi : ∀ ib, c.issuer = hexEnc ib → ib.length < 2 ^ 64) (hi' : ∀ ib, c'.issuer = hexEnc ib → ib.length < 2 ^ 64)
+    (sb : List UInt8) (hsb : V1.signedBytes c = some sb) (hsb' : V1.signedBytes c' = some sb) :
+    identity c = identity c' := by
+  have ok := v1ok_of_decoded b pk c h hs hi
+  have ok' := v1ok_of_decoded b' pk' c' h' hs' hi'
+  unfold V1.signedBytes at hsb hsb'
+  have w := detailsWF_of c c.publicKey ok ok.pk_len (groups_utf8_of_encode _ sb hsb)
+  have w' := detailsWF_of c' c'.publicKey ok' ok'.pk_len (groups_utf8_of_encode _ sb hsb')
+  have r := decDetails_encodeDetails _ w sb hsb _ (Nat.le_refl _)
+  have r' := decDetails_encodeDetails _ w' sb hsb' _ (Nat.le_refl _)
+  rw [r] at r'
+  have hrd := Option.some.inj r'
+  have hpk : c.publicKey = c'.publicKey := by
+    have := congrArg V1.RawDetails.publicKey hrd
+    exact this
+  have e := certOfRaw_rawDetailsOf c ok c.publicKey
+  have e' := certOfRaw_rawDetailsOf c' ok' c'.publicKey
+  unfold identity
+  rw [← e, ← e', hrd, hpk]
+  rfl
 
 /-! ### Non-vacuity -/
 
